@@ -1,5 +1,6 @@
 import Generated.Trans
 import Model.Pool
+import Proofs.Pool
 /-
 Tie obligations for C11: `Generated/Trans.lean` holds `(*chpool.Client).Release` and `(*chpool.Pool).checkIdleConnsHealth`
 translated statement by statement from the working tree (extract/golean.go, extract/trans_pool.go) over the puddle
@@ -41,3 +42,191 @@ theorem tie_C11_health_shape (cfg : Cfg) (s : St) :
     Generated.Trans.Pool.checkIdleConnsHealth cfg s =
       (puddleAcquireAllIdle s).2.foldl (Generated.Trans.Pool.healthOne cfg (puddleAcquireAllIdle s).1.now) (puddleAcquireAllIdle s).1 := rfl
 
+
+/-! ### the whole health check: the translated loop = the `.health` step of the model -/
+
+def unheld (r : Res) : Res := { r with held := false }
+
+/-- what the health check does to the live list for one acquired idle resource -/
+def procLive (cfg : Cfg) (n : Nat) (live : List Res) (res : Res) : List Res :=
+  if isDead cfg n res then live.filter (·.id != res.id) else upd live res.id unheld
+
+theorem foldl_health (cfg : Cfg) (n : Nat) (L : List Res) : ∀ st : St, st.closed = false → st.now = n →
+    (L.foldl (Generated.Trans.Pool.healthOne cfg n) st).live = L.foldl (procLive cfg n) st.live ∧
+    (L.foldl (Generated.Trans.Pool.healthOne cfg n) st).destroyed = ((L.filter (isDead cfg n)).map (·.id)).reverse ++ st.destroyed ∧
+    (L.foldl (Generated.Trans.Pool.healthOne cfg n) st).now = n ∧
+    (L.foldl (Generated.Trans.Pool.healthOne cfg n) st).closed = false ∧
+    (L.foldl (Generated.Trans.Pool.healthOne cfg n) st).handles = st.handles ∧
+    (L.foldl (Generated.Trans.Pool.healthOne cfg n) st).nextId = st.nextId ∧
+    (L.foldl (Generated.Trans.Pool.healthOne cfg n) st).corrupt = st.corrupt := by
+  induction L with
+  | nil => intro st hc hn; simp [hn, hc]
+  | cons res L ih =>
+    intro st hc hn
+    simp only [List.foldl_cons]
+    have h1 := tie_C11_healthOne cfg st res
+    rw [hn] at h1
+    rw [h1]
+    by_cases hd : isDead cfg n res = true
+    · simp only [hd, if_true, puddleDestroy, destroy]
+      have := ih { st with live := st.live.filter (·.id != res.id), destroyed := res.id :: st.destroyed } hc hn
+      simp only [procLive, hd, if_true, List.filter_cons_of_pos, List.map_cons, List.reverse_cons, List.append_assoc, List.singleton_append] at this ⊢
+      exact this
+    · have hd' : isDead cfg n res = false := by simpa using hd
+      have := ih { st with live := upd st.live res.id unheld } hc hn
+      have e1 : (if isDead cfg n res = true then puddleDestroy st res.id else puddleReleaseUnused st res.id)
+          = { st with live := upd st.live res.id unheld } := by
+        simp only [hd', puddleReleaseUnused, hc, Bool.false_eq_true, if_false]
+        rfl
+      rw [e1]
+      have e2 : procLive cfg n st.live res = upd st.live res.id unheld := by simp [procLive, hd']
+      have e3 : (res :: L).filter (isDead cfg n) = L.filter (isDead cfg n) := by simp [hd']
+      rw [e3]
+      simp only [List.foldl_cons, e2]
+      exact this
+
+theorem filterMap_congr_mem {α β : Type} {f g : α → Option β} :
+    ∀ l : List α, (∀ x ∈ l, f x = g x) → l.filterMap f = l.filterMap g := by
+  intro l
+  induction l with
+  | nil => intro _; rfl
+  | cons a l ih =>
+    intro h
+    have ha := h a (by simp)
+    have hl := ih (fun x hx => h x (by simp [hx]))
+    simp only [List.filterMap_cons, ha, hl]
+
+def hproc (cfg : Cfg) (n : Nat) (L : List Res) (x : Res) : Option Res :=
+  if L.any (fun res => res.id == x.id && isDead cfg n res) then none
+  else if L.any (fun res => res.id == x.id) then some (unheld x) else some x
+
+theorem foldl_procLive (cfg : Cfg) (n : Nat) (L : List Res) :
+    ∀ xs : List Res, L.foldl (procLive cfg n) xs = xs.filterMap (hproc cfg n L) := by
+  induction L with
+  | nil =>
+    intro xs
+    have : hproc cfg n [] = some := by funext x; simp [hproc]
+    simp [this]
+  | cons res L ih =>
+    intro xs
+    simp only [List.foldl_cons]
+    rw [ih]
+    by_cases hd : isDead cfg n res = true
+    · simp only [procLive, hd, if_true, List.filterMap_filter]
+      apply filterMap_congr_mem
+      intro x _
+      by_cases hx : x.id = res.id
+      · simp [hproc, hx, hd]
+      · have hx' : res.id ≠ x.id := fun h => hx h.symm
+        simp [hproc, hx, hx']
+    · have hd' : isDead cfg n res = false := by simpa using hd
+      simp only [procLive, hd', upd, List.filterMap_map, Bool.false_eq_true, if_false]
+      apply filterMap_congr_mem
+      intro x _
+      by_cases hx : x.id = res.id
+      · simp only [Function.comp, hx, if_true, hproc, unheld, List.any_cons, hd', Bool.and_false, Bool.false_or, beq_self_eq_true, Bool.true_or]
+        simp
+      · have hx' : res.id ≠ x.id := fun h => hx h.symm
+        simp [hproc, hx, hx', Function.comp]
+
+theorem health_live (cfg : Cfg) (n : Nat) (live : List Res)
+    (ids : ∀ r ∈ live, ∀ r' ∈ live, r.id = r'.id → r = r') :
+    (live.map (fun r => if r.held then r else setHeld r)).filterMap (hproc cfg n (live.filter (fun r => !r.held))) =
+      live.filter (fun r => r.held || !isDead cfg n r) := by
+  rw [List.filterMap_map]
+  have e := congrFun (@List.filterMap_eq_filter Res (fun r => r.held || !isDead cfg n r)) live
+  rw [← e]
+  apply filterMap_congr_mem
+  intro x hx
+  simp only [Function.comp]
+  cases hh : x.held with
+  | true =>
+    have h1 : (live.filter (fun r => !r.held)).any (fun res => res.id == x.id && isDead cfg n res) = false := by
+      rw [List.any_eq_false]
+      intro res hres
+      simp only [List.mem_filter, Bool.not_eq_true'] at hres
+      by_cases he : res.id = x.id
+      · have := ids res hres.1 x hx he
+        subst this
+        simp [hh] at hres
+      · simp [he]
+    have h2 : (live.filter (fun r => !r.held)).any (fun res => res.id == x.id) = false := by
+      rw [List.any_eq_false]
+      intro res hres
+      simp only [List.mem_filter, Bool.not_eq_true'] at hres
+      by_cases he : res.id = x.id
+      · have := ids res hres.1 x hx he
+        subst this
+        simp [hh] at hres
+      · simp [he]
+    simp [hproc, h1, h2, hh, Option.guard]
+  | false =>
+    have hxL : x ∈ live.filter (fun r => !r.held) := by simp [hx, hh]
+    have hid : (setHeld x).id = x.id := rfl
+    have h1 : (live.filter (fun r => !r.held)).any (fun res => res.id == x.id && isDead cfg n res) = isDead cfg n x := by
+      cases hd : isDead cfg n x with
+      | true =>
+        rw [List.any_eq_true]
+        exact ⟨x, hxL, by simp [hd]⟩
+      | false =>
+        rw [List.any_eq_false]
+        intro res hres
+        simp only [List.mem_filter, Bool.not_eq_true'] at hres
+        by_cases he : res.id = x.id
+        · have := ids res hres.1 x hx he
+          subst this
+          simp [hd]
+        · simp [he]
+    have h2 : (live.filter (fun r => !r.held)).any (fun res => res.id == x.id) = true := by
+      rw [List.any_eq_true]
+      exact ⟨x, hxL, by simp⟩
+    have hu : unheld (setHeld x) = x := by
+      cases x; simp_all [unheld, setHeld]
+    simp only [hproc, hid, h1, h2, hh, Bool.false_eq_true, if_false, if_true, hu, Bool.false_or, Option.guard]
+    cases hd : isDead cfg n x <;> simp
+
+/-- **The translated health check IS the `.health` step of the pool model** (on an open pool whose resource ids are
+distinct): same live resources in the same order, the same set of destroyed connections (the loop destroys them one by
+one, the model records them in one go: the order inside `destroyed` differs, nothing reads it), everything else equal. -/
+theorem tie_C11_health (cfg : Cfg) (s : St) (hc : s.closed = false)
+    (ids : ∀ r ∈ s.live, ∀ r' ∈ s.live, r.id = r'.id → r = r') :
+    (Generated.Trans.Pool.checkIdleConnsHealth cfg s).live = (step cfg s .health).live ∧
+    (∀ d, d ∈ (Generated.Trans.Pool.checkIdleConnsHealth cfg s).destroyed ↔ d ∈ (step cfg s .health).destroyed) ∧
+    (Generated.Trans.Pool.checkIdleConnsHealth cfg s).now = (step cfg s .health).now ∧
+    (Generated.Trans.Pool.checkIdleConnsHealth cfg s).handles = (step cfg s .health).handles ∧
+    (Generated.Trans.Pool.checkIdleConnsHealth cfg s).closed = (step cfg s .health).closed ∧
+    (Generated.Trans.Pool.checkIdleConnsHealth cfg s).nextId = (step cfg s .health).nextId ∧
+    (Generated.Trans.Pool.checkIdleConnsHealth cfg s).corrupt = (step cfg s .health).corrupt := by
+  rw [tie_C11_health_shape]
+  have hacq : puddleAcquireAllIdle s =
+      ({ s with live := s.live.map fun r => if r.held then r else setHeld r }, idle s) := by
+    simp [puddleAcquireAllIdle, hc]
+  rw [hacq]
+  obtain ⟨h1, h2, h3, h4, h5, h6, h7⟩ :=
+    foldl_health cfg s.now (idle s) { s with live := s.live.map fun r => if r.held then r else setHeld r } hc rfl
+  have hstep : step cfg s .health =
+      { s with live := s.live.filter (fun r => r.held || !isDead cfg s.now r),
+               destroyed := ((idle s).filter (isDead cfg s.now)).map (·.id) ++ s.destroyed } := by
+    simp [step, hc]
+  rw [hstep]
+  refine ⟨?_, ?_, ?_, ?_, ?_, ?_, ?_⟩
+  · rw [h1, foldl_procLive]
+    exact health_live cfg s.now s.live ids
+  · intro d
+    rw [h2]
+    simp [List.mem_append, List.mem_reverse]
+  · simpa using h3
+  · simpa using h5
+  · simpa [hc] using h4
+  · simpa using h6
+  · simpa using h7
+
+/-- … in particular in every state the pool model can reach -/
+theorem tie_C11_health_reachable (cfg : Cfg) (hclr : cfg.clearOnRelease = true) (ops : List Op)
+    (hc : (run cfg {} ops).closed = false) :
+    (Generated.Trans.Pool.checkIdleConnsHealth cfg (run cfg {} ops)).live = (step cfg (run cfg {} ops) .health).live ∧
+    ∀ d, d ∈ (Generated.Trans.Pool.checkIdleConnsHealth cfg (run cfg {} ops)).destroyed ↔
+      d ∈ (step cfg (run cfg {} ops) .health).destroyed := by
+  have inv := inv_run cfg hclr ops {} (inv_init cfg)
+  have := tie_C11_health cfg (run cfg {} ops) hc inv.ids
+  exact ⟨this.1, this.2.1⟩
